@@ -264,7 +264,7 @@ pub fn run(ctx: &Ctx) -> i32 {
     let cfg = cfg_for(ctx.tier);
     let mut reports = vec![super::regression_suite(ctx)];
     reports.push(types_x_patterns_suite());
-    let cases = ctx.tier.pick(100_000u64, 600_000u64);
+    let cases = ctx.tier.pick(100_000u64, 1_500_000u64);
     reports.push(tape_suite(ctx, "inter_histories", cases, 8192, &move |g| history_case(g, &cfg)));
     finish(
         ctx,
